@@ -70,7 +70,7 @@ def run_exact_inf(case):
     cnt["exact_inf_points_with_inf_entry"] = int(np.isinf(exp).sum())
     tol = 1e-10 if bootstrap.X64 else 1e-4
     with np.errstate(invalid="ignore"):
-        ok = (got == exp) | (np.abs(got - exp) <= tol * (1 + np.abs(exp)))
+        ok = (got == exp) | ((np.abs(got - exp) <= tol * (1 + np.abs(exp))) & np.isfinite(exp) & np.isfinite(got))
     if not ok.all():
         k0 = int(np.argmin(ok))
         res["violations"].append({"key": "node_not_reproduced_next_to_infinite_entries", "what": f"array {shape} with -inf entries, integer-node grids: at node { {v: float(pts[v][k0]) for v in dd + ct} } the function returns {got[k0]!r}, stored entry {exp[k0]!r} ({int((~ok).sum())}/{K} nodes)"})
